@@ -6,7 +6,7 @@ From Coq Require Import NArith ZArith QArith List Bool Sorted.
 From RP Require Import Base.Bits Gen.GenPerm Model.Codec Model.Evaluator Model.Equity.
 From RP Require Import Spec.SpecCodec Spec.SpecPoker Spec.SpecStrength Spec.SpecIso Spec.SpecIsoWf
   Spec.SpecCombs Spec.SpecEquity.
-From RP Require Proofs.C07_Counts Proofs.C07_Relabel Proofs.C07_Invariant Proofs.C07_Hist Proofs.C07_Examples
+From RP Require Proofs.C07_SpecCounts Proofs.C07_Counts Proofs.C07_Relabel Proofs.C07_Invariant Proofs.C07_Hist Proofs.C07_Examples
   Proofs.C05_Examples.
 Import ListNotations.
 Open Scope N_scope.
@@ -52,6 +52,12 @@ Theorem C07_showdown_spec : forall d o v, wf_obs_d d o -> hand_size (public o) =
   showdown d o v = Some (cmp_spec d (hand_cards (hero_hand o)) (hand_cards (villain_hand o v))).
 Proof. exact C07_Counts.showdown_spec_wf. Qed.
 Print Assumptions C07_showdown_spec.
+
+(* the oracle evaluated on the implementation in every run: both counts from the rule book alone *)
+Theorem C07_counts_are_spec_counts : forall d o w n, wf_obs_d d o -> hand_size (public o) = 5 ->
+  equity_counts d o = Some (w, n) -> spec_counts d o = (w, n).
+Proof. exact C07_SpecCounts.counts_are_spec_counts. Qed.
+Print Assumptions C07_counts_are_spec_counts.
 
 Corollary C07_range_standard : forall o w n, wf_obs_d Standard o -> hand_size (public o) = 5 ->
   equity_counts Standard o = Some (w, n) -> w <= n /\ n <= 990.
